@@ -1847,13 +1847,22 @@ func runC08(c *ctx) {
 						knockCount++
 					}
 				}
+				// A known finding explains an anomaly only if the as-is model of the read loop, fed exactly
+				// the observed reads, predicts exactly the observed outcome. An input that merely looks
+				// like a known-finding input (a `##` line, a split id, ...) but on which the code does
+				// something else than the recorded defect is a different violation.
+				explained := ""
+				if !modelSame && !strings.HasSuffix(sig, ":in-domain") && !strings.HasSuffix(sig, ":unattributed") {
+					sig += ":not-explained-by-the-as-is-model"
+					explained = fmt.Sprintf(" [the as-is model of the recorded defect predicts %s for these reads]", c08short(L.model[k]))
+				}
 				got := "returned " + c08short(impl)
 				if impl == "T" {
 					got = "timed out"
 				}
-				exp := "the server sent in full " + c08short(L.spec[k])
+				exp := "the server sent in full " + c08short(L.spec[k]) + explained
 				if L.spec[k] == "T" {
-					exp = "the server had sent no reply to it"
+					exp = "the server had sent no reply to it" + explained
 				}
 				fails = append(fails, fail{"oracle", desc + ": " + got + ", " + exp + sess, sig})
 			}
@@ -1922,6 +1931,10 @@ func runC08(c *ctx) {
 					fails = append(fails, fail{"correspondence", fmt.Sprintf("GetSubscriptionMessages(%d) over the session: impl %s, model %s; session %s", id, show(impl), show(modelSubs[id]), p.name), "impl-vs-model-subscriptions"})
 				}
 				if inProp && !same(impl, spec) {
+					notExplained := ""
+					if cause != "in-domain" && !same(impl, modelSubs[id]) {
+						notExplained = ":not-explained-by-the-as-is-model"
+					}
 					effect := "wrong"
 					if len(impl) < len(spec) {
 						effect = "lost"
@@ -1931,7 +1944,7 @@ func runC08(c *ctx) {
 					} else if len(impl) > len(spec) {
 						effect = "extra"
 					}
-					fails = append(fails, fail{"oracle", fmt.Sprintf("GetSubscriptionMessages(%d) over the session returned %s, the server sent for that subscription %s (in order, each exactly once); session %s", id, show(impl), show(spec), p.name), "notifications-" + effect + ":" + cause})
+					fails = append(fails, fail{"oracle", fmt.Sprintf("GetSubscriptionMessages(%d) over the session returned %s, the server sent for that subscription %s (in order, each exactly once); session %s", id, show(impl), show(spec), p.name), "notifications-" + effect + ":" + cause + notExplained})
 				}
 				if L.dom && inProp && !same(modelSubs[id], spec) {
 					fails = append(fails, fail{"machinery", fmt.Sprintf("in-domain but the model's subscription messages %s differ from the server's %s; session %s", show(modelSubs[id]), show(spec), p.name), "model-vs-spec-subscriptions"})
